@@ -59,7 +59,13 @@ fn tracker_for(spec: Spec) -> Result<Arc<Tracker>, String> {
                 c.cleaning.max_connection_idle = 100_000;
                 c
             })
-            .map(Arc::new)
+            .map(|t| {
+                // diagnostic knob: let the tracker settle before the first request
+                if let Some(ms) = std::env::var("VCHECK_WS_START_DELAY_MS").ok().and_then(|s| s.parse::<u64>().ok()) {
+                    std::thread::sleep(Duration::from_millis(ms));
+                }
+                Arc::new(t)
+            })
         })
         .clone()
 }
